@@ -41,7 +41,7 @@ type Value struct {
 	Str       *string // used by ValueStr and ValueRegex
 	Num       *float64
 	Bool      *bool
-	Array     []*Cell
+	Array     *[]*Cell // shared by every reference to the array, like Obj
 	Obj       *map[string]*Cell
 	NativeFn  func(*Evaluator, []*Value, *Value) (*Value, error)
 	Fn        *ExprFunction
@@ -55,7 +55,7 @@ func NewValue(srcVal interface{}) Value {
 	case []*Cell:
 		return Value{
 			Tag:   ValueArray,
-			Array: val,
+			Array: &val,
 			Proto: getArrayPrototype(),
 		}
 	case []interface{}:
@@ -65,7 +65,7 @@ func NewValue(srcVal interface{}) Value {
 		}
 		return Value{
 			Tag:   ValueArray,
-			Array: arr,
+			Array: &arr,
 			Proto: getArrayPrototype(),
 		}
 	case []string:
@@ -75,7 +75,7 @@ func NewValue(srcVal interface{}) Value {
 		}
 		return Value{
 			Tag:   ValueArray,
-			Array: arr,
+			Array: &arr,
 			Proto: getArrayPrototype(),
 		}
 	case map[string]interface{}:
@@ -128,7 +128,7 @@ func NewArray() Value {
 	arr := make([]*Cell, 0)
 	return Value{
 		Tag:   ValueArray,
-		Array: arr,
+		Array: &arr,
 		Proto: getArrayPrototype(),
 	}
 }
@@ -169,13 +169,6 @@ func (v *Value) PrettyString(quote bool) string {
 	return v.prettyStringInteral(rootValues, quote, false)
 }
 
-// check if two value slices have the same underlying array
-// borrowed from go's math library
-// https://go.dev/src/math/big/nat.go#L374
-func alias(x, y []*Cell) bool {
-	return cap(x) > 0 && cap(y) > 0 && &x[0:cap(x)][cap(x)-1] == &y[0:cap(y)][cap(y)-1]
-}
-
 func isSame(a *Value, b *Value) bool {
 	if a.Tag != b.Tag {
 		return false
@@ -184,7 +177,7 @@ func isSame(a *Value, b *Value) bool {
 		return a.Obj == b.Obj
 	}
 	if a.Tag == ValueArray && b.Tag == ValueArray {
-		return alias(a.Array, b.Array)
+		return a.Array == b.Array
 	}
 	return false
 }
@@ -216,7 +209,7 @@ func (v *Value) prettyStringInteral(rootValues []*Value, quote bool, checkCircul
 	case ValueArray:
 		var sb strings.Builder
 		sb.WriteByte('[')
-		for index, cell := range v.Array {
+		for index, cell := range *v.Array {
 			if index > 0 {
 				sb.WriteString(", ")
 			}
@@ -262,7 +255,7 @@ func (v *Value) getMember(member Value, fill bool) (*Cell, error) {
 			return v.Proto.GetMember(member)
 		}
 		index := int(*member.Num)
-		arr := v.Array
+		arr := *v.Array
 
 		if index < 0 {
 			index = len(arr) + index
@@ -289,7 +282,7 @@ func (v *Value) getMember(member Value, fill bool) (*Cell, error) {
 				lastCell = NewCell(NewValue(nil))
 				arr = append(arr, lastCell)
 			}
-			v.Array = arr
+			*v.Array = arr
 
 			// make the last cell a spec object
 			lastCell.Value.ParentObj = v
@@ -452,8 +445,8 @@ func (v *Value) toGoValueInterval(rootValues []*Value, checkCircularReference bo
 	case ValueNum:
 		return *v.Num, nil
 	case ValueArray:
-		array := make([]interface{}, 0, len(v.Array))
-		for _, item := range v.Array {
+		array := make([]interface{}, 0, len(*v.Array))
+		for _, item := range *v.Array {
 			val, err := item.Value.toGoValueInterval(append(rootValues, v), true)
 			if err != nil {
 				return nil, err
